@@ -128,7 +128,7 @@ def replay_mt(r):
     from . import mtmaildir as mt
     with scratch_parent():
         ex, info = c02mt.run_schedule(r['layout'], tuple(r['names']),
-                                      r['prefix'])
+                                      r['prefix'], r.get('deliver', False))
         viols = c02mt.judge(r['layout'], tuple(r['names']), ex, info)
         mt.drop_templates()
     for v in viols:
